@@ -166,6 +166,10 @@ def rule_r2(p, res):
         new = rets[0].value.id
         v = d.single(new)
         r.check(v is not None and norm(v) == "self.copy()", f, f.node, "%s must work on self.copy()" % nm)
+        gq = cfgmod.build(f.node)
+        inst = [n for n in walk_own(f.node) if isinstance(n, ast.Assign) and any(isinstance(t, ast.Attribute) and t.attr == "_callables" for t in n.targets)]
+        r.check(bool(inst) and gq.must_pass(inst, cfgmod.RETURN), f, inst[0] if inst else f.node, "%s returns on some path without installing the new list of callables (e.g. for a boundary value of its "
+                "argument): the result is then just a copy of the receiver" % nm)
         for n in walk_own(f.node):
             if isinstance(n, ast.Assign):
                 for t in n.targets:
@@ -378,5 +382,7 @@ WITNESSES = [
     Witness("C19.W7", "menpo/base.py", "LazyList.__getitem__", "return LazyList([self._callables[s] for s in slice_])", "return LazyList([self._callables[s]() for s in slice_])",
             rule="C19.R1", construct="__getitem__"),
     Witness("C19.W8", "menpo/io/input/video.py", "FFMpegVideoReader.__getitem__", "index <= self.index", "index < self.index", rule="C19.R6", construct="FFMpegVideoReader.__getitem__", note="seeded change C19-A"),
+    Witness("C19.W9", "menpo/base.py", "LazyList.repeat", "new._callables = list(chain(*zip(*[new._callables] * n)))", "if n > 1:\n        new._callables = list(chain(*zip(*[new._callables] * n)))",
+            rule="C19.R2", construct="repeat", note="seeded change R2-C19-C"),
     Witness("C19.T1", "menpo/base.py", "LazyList.copy", "new._callables = list(self._callables)", "new._callables = self._callables[:]", kind="T"),
 ]
